@@ -141,3 +141,10 @@ def run(ctx, eng):
                'the assertions after the window decrements of send_data can '
                'only hold because the guard refuses every amount above the '
                'true (possibly negative) minimum of the two windows')
+    cm.include(ctx, eng, 'C22', {'ORD.lookup-first'},
+               'push_stream on a parent that is gone reports it as gone')
+    cm.include(ctx, eng, 'C24', {'ORD.args', ('FLOW.send',
+                                              'advertise_alternative_service')},
+               'advertise_alternative_service: exactly one of origin / '
+               'stream_id, decided by `is None` (an empty origin is still an '
+               'origin), or the stream lookup is reached with None')
